@@ -9,6 +9,11 @@ once and handed to containers again and again (same name, second name, another c
 `x.vis = ..` and `x.name = ..` in between; ALL containers are observed after every operation and Coq replays the history
 through Spec/C18World.v and Model/C18World.v (Corr/C18.v: chk_world). Coverage targets (W_TARGETS) are measured on what the
 implementation accepted and fail closed.
+
+Second strengthening round: Signals in all eight (visibility x direction) flavours (SIGK; `x.direction = ..` as world
+operation "dir"), stream exhaustive-signal-flavours, stream class-then-edit (class body with plain data under public names,
+then edits re-using those names; Corr/C18.v: chk_class_hist), attribute access on unbound names must find nothing
+(Corr/C18.v: ga_ok).  Coverage targets DIR_TARGETS / CH_TARGETS and the new W_TARGETS fail closed.
 """
 import json, itertools, time
 from . import core
